@@ -44,6 +44,10 @@ int alg_id(const char *name); /* DIE if unknown */
 typedef struct keyset keyset_t;
 keyset_t *keyset_new(IMB_MGR *m, int keyid); /* keyid selects raw key bytes (seed-derived; 1000+: structured) */
 void keyset_free(keyset_t *);
+size_t keyset_size(void);
+/* placement variant: all key objects live inside `mem` (keyset_size() bytes, 64-byte aligned) - used by the
+ * shared-memory re-attach driver so that job descriptors only point into the arena */
+keyset_t *keyset_new_at(IMB_MGR *m, int keyid, void *mem);
 const uint8_t *keyset_raw(const keyset_t *); /* 64 raw key bytes */
 /* C13: overwrite EVERY key object of the set (raw key, all expanded/derived schedules, sub-keys, ipad/opad, GCM
  * tables) with recognisable words: little-endian (index, m0, m1, m2) - the library only consumes these objects,
